@@ -171,14 +171,18 @@ class MacroProcessor:
     def _extract_project_dates(self, content: str) -> None:
         """Extract project start/end dates for built-in macros."""
         # Look for project declaration: project id "name" date +duration
-        match = re.search(r'project\s+\w+\s+"[^"]*"\s+(\d{4}-\d{2}-\d{2})(?:\s+\+(\d+)([dwmy]))?', content)
+        # (the start may carry a time of day: 2024-01-01-10:00; ${projectstart} keeps it)
+        match = re.search(
+            r"project\s+\w+\s+(?:\"[^\"]*\"\s+|'[^']*'\s+)?(\d{4}-\d{2}-\d{2}(?:-\d{1,2}:\d{2})?)(?:\s+\+(\d+)([dwmy]))?",
+            content,
+        )
         if match:
             self._project_start = match.group(1)
             # Calculate project end from duration if present
             if match.group(2) and match.group(3):
                 from dateutil.relativedelta import relativedelta
 
-                start_date = datetime.strptime(match.group(1), "%Y-%m-%d")
+                start_date = datetime.strptime(match.group(1)[:10], "%Y-%m-%d")
                 amount = int(match.group(2))
                 unit = match.group(3)
                 try:
